@@ -105,7 +105,11 @@ class Ev:
 
 # --------------------------------------------------------------------------- leaves
 
+LEAF_SRC = {}
+
+
 def toks(text, origin):
+    LEAF_SRC[origin] = text
     return tokenize(text, origin)
 
 
@@ -647,6 +651,7 @@ class TypeParam:
 
     def __init__(self, kind, name, decl=None):
         self.kind, self.name, self.decl = kind, name, decl or name
+        self.decl_ts = None
 
 
 class Spec:
@@ -710,4 +715,8 @@ class GenericParamV:
         raise Unsupported('GenericParam field %d' % i)
 
     def to_tokens(self, e, ts):
-        ts.items.extend(toks(self.p.decl, 'gen:' + self.p.name).items)
+        dts = getattr(self.p, 'decl_ts', None)
+        if dts is not None:
+            ts.items.extend(dts.items)
+        else:
+            ts.items.extend(toks(self.p.decl, 'gen:' + self.p.name).items)
